@@ -331,7 +331,7 @@ def coq_eval(lines, timeout=900):
 def load_findings():
     """KNOWN_FINDINGS.json plus per-property files findings/Cxx.json (same shape); never written at run time."""
     res = {"known": [], "fixed": []}
-    paths = [os.path.join(VERIF, "KNOWN_FINDINGS.json")]
+    paths = []   # KNOWN_FINDINGS.json is the consolidated index generated from these files by tools/mkfindings.py
     fd = os.path.join(VERIF, "findings")
     if os.path.isdir(fd):
         paths += [os.path.join(fd, f) for f in sorted(os.listdir(fd)) if f.endswith(".json")]
